@@ -804,7 +804,7 @@ def prog_tie(chk, tier):
             files["helper.inc.js"] = INC_JS
         for minify in (False, True):
             jobs.append({"id": "p%d%s" % (i, "m" if minify else "p"), "files": files, "minify": minify,
-                         "localmap": i % 2 == 0, "run": True, "timeout": 30})
+                         "localmap": i % 2 == 0, "run": True, "timeout": 60})
             gens.append(g)
     p = C.run_gvh(["prog", "-j", "8"], [json.dumps(j) for j in jobs], name="gvh_c19",
                   extra_env={"NODE_OPTIONS": "--stack-trace-limit=100"})
@@ -813,6 +813,16 @@ def prog_tie(chk, tier):
     results = [json.loads(l) for l in p.stdout.split("\n") if l.strip()]
     if len(results) != len(jobs):
         raise RuntimeError("gvh_c19 prog answered %d results for %d jobs" % (len(results), len(jobs)))
+    # a node run that timed out (loaded machine) is a harness problem, not an observation: run it again alone
+    for i, res in enumerate(results):
+        if res.get("class") == "timeout" or (not res.get("err") and not res.get("stderr") and res.get("exit", 0) != 0):
+            j2 = dict(jobs[i], timeout=300)
+            p2 = C.run_gvh(["prog", "-j", "1"], [json.dumps(j2)], name="gvh_c19", extra_env={"NODE_OPTIONS": "--stack-trace-limit=100"})
+            if p2.returncode != 0:
+                raise RuntimeError("gvh_c19 prog (retry) failed: " + p2.stderr[-2000:])
+            results[i] = json.loads(p2.stdout.strip().split("\n")[-1])
+            if results[i].get("class") == "timeout":
+                raise RuntimeError("node timed out twice on program %s (harness failure)" % jobs[i]["id"])
     stats = collections.Counter()
     for job, g, res in zip(jobs, gens, results):
         if res.get("err") and "compiler panic" in res["err"]:
